@@ -50,6 +50,17 @@ impl<'a> Gen<'a> {
         self.pick_zones_n(n);
     }
 
+    /// `n` distinct catalogue zones (a shuffled prefix).
+    fn distinct_zones(&mut self, n: usize) -> Vec<String> {
+        let mut idx: Vec<usize> = (0..self.image.zones.len()).collect();
+        let n = n.min(idx.len());
+        for i in 0..n {
+            let j = i + self.rng.below((idx.len() - i) as u64) as usize;
+            idx.swap(i, j);
+        }
+        idx[..n].iter().map(|&i| self.image.zones[i].clone()).collect()
+    }
+
     fn pick_zones(&mut self) {
         let n = 2 + self.rng.below(5) as usize;
         self.pick_zones_n(n);
@@ -341,6 +352,18 @@ impl<'a> Gen<'a> {
                 prewarm.push(z);
             }
         }
+        // "marathon": the process has already used very many zones (cache
+        // capacity limits, eviction) — and maybe failed on one of them first
+        if self.rng.chance(1, 60) {
+            let n = 30 + self.rng.below(200) as usize;
+            let mut many = self.distinct_zones(n);
+            if self.rng.chance(1, 2) {
+                let at = self.rng.below(many.len().min(4) as u64) as usize;
+                many.insert(at, "No/Such_Zone".to_string());
+            }
+            many.extend(prewarm);
+            prewarm = many;
+        }
         // a third of the runs are fault-free
         if !self.rng.chance(1, 3) {
             let n = 1 + self.rng.below(3) as usize;
@@ -375,7 +398,28 @@ impl<'a> Gen<'a> {
         kinds.extend(ops::NOW_LOCKED);
         kinds.extend(ops::CORE_ONLY);
         let mut v = vec![];
-        let restart_rate = *self.rng.pick(&[0u64, 0, 1, 3]);
+        let mut restart_rate = *self.rng.pick(&[0u64, 0, 1, 3]);
+        // "marathon": one provider that resolves very many distinct zones
+        // first (cache capacity limits, eviction), maybe after a failed lookup
+        if self.rng.chance(1, 40) {
+            restart_rate = 0;
+            let n_many = 30 + self.rng.below(200) as usize;
+            let many = self.distinct_zones(n_many);
+            if self.rng.chance(1, 2) {
+                v.push(Op::new("raw.offset", "No/Such_Zone", 0));
+            }
+            for z in &many {
+                let ns = self.instant(z);
+                let k = *self.rng.pick(&["raw.offset", "raw.offset", "raw.local", "zdt.hour"]);
+                v.push(Op::new(k, z, ns));
+            }
+            // revisit some of them afterwards
+            for _ in 0..12 {
+                let z = self.rng.pick(&many).clone();
+                let ns = self.instant(&z);
+                v.push(Op::new("raw.offset", &z, ns));
+            }
+        }
         for _ in 0..n {
             if self.rng.below(40) < restart_rate {
                 v.push(Op::new("restart", "UTC", 0));
